@@ -8,39 +8,7 @@ from ..oracles.core import ALNUM, IbanOracle, norm
 from ..runner import HarnessError, Rec
 
 _COMPACT_OK = re.compile(r"[A-Z0-9]{1,34}\Z")
-_ORACLE = None
-_GEN = None
-
-
-def oracle():
-    global _ORACLE, _GEN
-    if _ORACLE is None:
-        _ORACLE = IbanOracle()
-        _GEN = gens.Gen(_ORACLE)
-    return _ORACLE
-
-
-def gen():
-    oracle()
-    return _GEN
-
-
-def char_cat(ch):
-    if ch in ALNUM:
-        return "alnum"
-    if ch.isascii():
-        return "ascii-lower" if ch.islower() else ("ascii-space" if ch.isspace() else "ascii-other")
-    if ch.isspace():
-        return "uni-space"
-    if ch.isdecimal():
-        return "uni-digit"
-    if ch.isdigit() or ch.isnumeric():
-        return "uni-numeric"
-    if ch.upper() != ch:
-        return "uni-cased"
-    if ch.isalpha():
-        return "uni-letter"
-    return "uni-other"
+from ._shared import char_cat, gen, oracle  # noqa: E402
 
 
 def zone(i):
